@@ -106,7 +106,7 @@ def write_umbrella(work):
 
 
 def run_phqx(mode, src, out, overlay, extra=()):
-    cmd = [PHQX, "--mode=" + mode, "--root=" + INC, "--out=" + out] + (["--overlay=" + overlay] if overlay else []) + list(extra) + [src, "--"] + CLANG_FLAGS
+    cmd = [PHQX, "--mode=" + mode, "--root=" + INC, "--extern-body=phq_verif_control", "--out=" + out] + (["--overlay=" + overlay] if overlay else []) + list(extra) + [src, "--"] + CLANG_FLAGS
     t0 = time.time()
     r = subprocess.run(cmd, capture_output=True, text=True)
     if not os.path.exists(out) or os.path.getsize(out) == 0:
@@ -122,6 +122,17 @@ def _subst(s, mapping):
         s = re.sub(r"\b%s\b" % re.escape(k), v, s)
     return s
 
+
+CONTROL = r'''
+namespace phq_verif_control {
+enum class E : signed char { A, B };
+inline E cast_to_enum(int i) { return static_cast<E>(i); }
+inline int signed_add(int a, int b) { return a + b; }
+inline double unchecked_find(const std::map<E, double>& m, E e) { return m.find(e)->second; }
+inline double uninitialised_read(bool b) { double x; if (b) { x = 1.0; } return x; }
+inline double throwing(const std::string& s) { return std::stod(s); }
+}  // namespace phq_verif_control
+'''
 
 UNIT_CONVERT_FUNCS = {"ConvertInPlace", "Convert", "ConvertStatically"}
 
@@ -294,7 +305,8 @@ def gen_driver(inv, T, tier):
             w("template struct std::hash<%s>;" % _subst(a, {"NumericType": T}))
         else:
             w("// hash partial specialisation with parameters %s not instantiated: %s" % (tn, a))
-    # user-level witnesses: ordered and unordered containers of each quantity (C14)
+    # positive controls for the zero-expected-count rules of C20/C10 (must be matched on every run)
+    w(CONTROL)
     return "\n".join(out) + "\n"
 
 
